@@ -341,6 +341,10 @@ class MovingWindowReduction(ArrayExpr):
             with_count=True,
         )
 
+    def _requires_grid_preservation(self, dependency):
+        # built under a precondition on the input's block grid
+        return True
+
     def _layer(self):
         x = self.array
         axis = self.sliding_axis
@@ -512,6 +516,10 @@ class SlidingWindowReduction(ArrayExpr):
             sliding_axis=self.sliding_axis,
             out_dtype=self.operand("dtype"),
         )
+
+    def _requires_grid_preservation(self, dependency):
+        # built under a precondition on the input's block grid
+        return True
 
     def _layer(self):
         x = self.array
